@@ -5,4 +5,4 @@
 Require Extraction.
 Require Import ExtrOcamlBasic ExtrOcamlString.
 From JV Require Import Model.Top.
-Extraction "model.ml" run_line.
+Extraction "model.ml" run_line_all.
